@@ -104,6 +104,7 @@ def run(ctx):
             ctx.bump('op=' + op[0])
         if k < 2: ctx.sample({'history': [list(map(str, h)) for h in hist]})
     clash_histories(ctx, queries)
+    odd_parents(ctx, queries)
 
 def clash_histories(ctx, queries):
     """oracle only (the heap model keeps style names fixed; clashes are renamed by the real code: C11): styles with one and the
@@ -123,6 +124,25 @@ def clash_histories(ctx, queries):
             queries(u, None, [str(h) for h in hist], op, out, None)
             ctx.bump('clash-op=' + op[0])
     ctx.exhaustive.append('name-clash histories (oracle only): four style:style elements, three of them created with the same name')
+
+def odd_parents(ctx, queries):
+    """element.getElementsByType below parents of unusual kinds: an element of a foreign namespace (no grammar entry at all)
+    and a schema element without children in the schema that was given one with checking off (as load() does)"""
+    from odf import text
+    from odf.element import Element
+    for k in range(12 if ctx.quick else 200):
+        box = Element(qname=('urn:verif:foreign', 'box'), check_grammar=False); box.appendChild(text.P(text='in the box'))
+        sp = text.S(); sp.appendChild(text.Span(text='in a childless element'))
+        u = D.Universe(True, extra_free=[box, sp], prelinked=bool(k % 2))
+        f = u.free_ids; t = u.id_of(u.doc.text)
+        hist = []
+        ops = [('append', t, f[8]), ('append', t, f[9]), ('append', f[0], f[8]), ('insert', t, f[9], None), ('remove', t, f[8]), ('append', f[8], f[1]), ('append', t, f[0])]
+        ctx.rng.shuffle(ops)
+        for op in ops[:ctx.rng.randint(2, len(ops))]:
+            if not D.legal(u, op): continue
+            out = D.apply_real(u, op); hist.append(op); u.snapshot()
+            queries(u, None, [str(h) for h in hist], op, out, None)
+    ctx.exhaustive.append('queries below a foreign-namespace element and below a schema-childless element holding a child (oracle only)')
 
 def replay(ctx, case):
     import json
